@@ -524,7 +524,8 @@ pub fn dcs_osc_tokens(level: u8) -> Vec<Token> {
     v.push(dcs("macro hex odd", b"6;0;1!z414"));
     v.push(dcs("macro hex repeat bad", b"6;0;1!z!3x"));
     v.push(dcs("macro invoke inside", b"7;0;0!zX\x1b[1*zY"));
-    v.push(dcs("macro self", b"8;0;0!z\x1b[8*z"));
+    v.push(dcs("macro self", b"8;0;1!z1B5B382A7A1B5B382A7A"));
+    v.push(dcs("macro invoke at definition", b"8;0;0!z\x1b[8*z"));
     v.push(dcs("macro p3 invalid", b"9;0;2!zA"));
     v.push(dcs("macro no id", b"!zA"));
     v.push(dcs("macro unicode slice", b"1\xff!z"));
